@@ -762,6 +762,7 @@ def run(rep):
 
     # ---------------- the CLI's own composition: default output, -y stream items, -m files
     cli_batch(rep, rng, 40 if quick else 600)
+    inherited_batch(rep, rng, 300 if quick else 6000)
 
     # ---------------- escape / key-quoting predicates
     pcases = []
@@ -1151,6 +1152,40 @@ def run_cli(args, src):
     return p.returncode, p.stdout, p.stderr
 
 
+def inherited_batch(rep, rng, n):
+    """Objects that come out of `+` after BOTH operands were inspected (length, field list, equality, manifestation —
+    whatever caches an implementation keeps on them): the emitted document must show exactly the fields whose final
+    visibility is not hidden (a `:` over `::` stays hidden, `:::` re-exposes), with the values of the upper layer."""
+    VIS = [(None, ":", True), (None, "::", False), (None, ":::", True), ("::", ":", False), ("::", ":::", True),
+           (":", "::", False), (":::", ":", True), (":::", "::", False), (":", ":::", True), (":", ":", True), ("::", "::", False)]
+    TOUCH = ["std.length(%s)", "std.objectFields(%s)", "std.objectFieldsAll(%s)", "%s == %s", "std.toString(%s)", "std.objectHas(%s, 'a')"]
+    jobs = []
+    for _ in range(n):
+        names = rng.sample(["a", "b", "c", "d", "e"], rng.randrange(1, 5))
+        plan = [(nm, gen_val(rng, 1), rng.choice(VIS)) for nm in names]
+        lower = ", ".join("%s%s %s" % (vlib.jsonnet_str(nm), lo, jsonnet_src(gen_val(rng, 1))) for nm, fv, (lo, up, vis) in plan if lo)
+        upper = ", ".join("%s%s %s" % (vlib.jsonnet_str(nm), up, jsonnet_src(fv)) for nm, fv, (lo, up, vis) in plan)
+        def touch(v):
+            t = rng.choice(TOUCH)
+            return t % ((v,) * t.count("%s"))
+        pre = rng.choice(["", "lo", "up", "both", "both"])
+        touches = ([touch("lo")] if pre in ("lo", "both") else []) + ([touch("up")] if pre in ("up", "both") else [])
+        src = "local lo = {%s}, up = {%s}; local seen = [%s]; if std.length(seen) >= 0 then lo + up" % (lower, upper, ", ".join(touches))
+        exp = Obj([(not vis, nm, fv) for nm, fv, (lo, up, vis) in plan])
+        jobs.append((src, exp, pre))
+    outs = vlib.impl([vlib.eval_line(src) for src, _, _ in jobs])
+    for (src, exp, pre), a in zip(jobs, outs):
+        rep.bump("inherited-visibility:" + (pre or "untouched"))
+        rep.count("inh " + src, pre == "both")
+        w = a.split(" ")
+        if w[0] != "ok":
+            rep.violation("inh " + src, "manifestation of an inheritance result failed: " + a[:120], {"src": src, "impl": a[:300]})
+            continue
+        bad = oracle_json(vlib.unhx(w[1]).decode("utf-8"), expected(exp))
+        if bad:
+            rep.violation("inh " + src, "inheritance result (operands inspected first: %s): %s" % (pre or "no", bad), {"src": src, "impl": a[:400]})
+
+
 def cli_batch(rep, rng, n):
     """default output, `-y` and `-m` of the real CLI binary, decoded with the JSON oracle"""
     import os
@@ -1269,6 +1304,13 @@ def violation_key(kind, c, bad):
 
 def replay(r):
     rp = r["replay"]
+    if set(rp.keys()) == {"src", "impl"}:
+        vlib.build_harness()
+        a = vlib.impl([vlib.eval_line(rp["src"])])[0]
+        print("source:", rp["src"][:1000])
+        print("impl  :", a[:400])
+        print("recorded failing answer:", rp["impl"][:400])
+        return 1 if a[:400] == rp["impl"][:400] else 0
     if "cli" in rp:
         vlib.build_cli()
         args = [a for a in rp["cli"] if a != "<dir>"]
